@@ -228,6 +228,7 @@ type Fun struct {
 	Prologue    *Const
 	Personality *Const
 	MD          []*Attachment
+	UseListOrders []*UseListOrder // function-level directives, printed before the closing brace
 }
 
 // FuncType returns the function's type.
@@ -374,6 +375,13 @@ type Module struct {
 	NamedMDs       []*NamedMD
 	MDs            []*MDNode
 	Order          []Top // textual order; nil = canonical grouping
+	UseListOrders  []*UseListOrder // module-level directives, printed after everything else
+}
+
+// UseListOrder is a uselistorder directive.
+type UseListOrder struct {
+	V       *Value
+	Indices []uint64
 }
 
 // ---------------------------------------------------------------------------
@@ -553,7 +561,13 @@ func (p *Printer) Module(m *Module) string {
 			p.fn(m.Funcs[t.Idx])
 		case TopAttrGroup:
 			g := m.AttrGroups[t.Idx]
-			p.w("attributes #%d = { %s }\n", g.ID, strings.Join(g.Attrs, " "))
+			if noise.SplitAttrGroups && len(g.Attrs) >= 2 {
+				k := len(g.Attrs) / 2
+				p.w("attributes #%d = { %s }\n", g.ID, strings.Join(g.Attrs[:k+1], " "))
+				p.w("attributes #%d = { %s }\n", g.ID, strings.Join(g.Attrs[k:], " "))
+			} else {
+				p.w("attributes #%d = { %s }\n", g.ID, strings.Join(g.Attrs, " "))
+			}
 		case TopNamedMD:
 			nm := m.NamedMDs[t.Idx]
 			var fs []string
@@ -565,6 +579,9 @@ func (p *Printer) Module(m *Module) string {
 			n := m.MDs[t.Idx]
 			p.w("!%d = %s\n", n.ID, p.mdNodeBody(n))
 		}
+	}
+	for _, u := range m.UseListOrders {
+		p.w("uselistorder %s, { %s }\n", p.tv(u.V), idxList(u.Indices))
 	}
 	return p.sb.String()
 }
@@ -761,6 +778,9 @@ func (p *Printer) fn(f *Fun) {
 			}
 		}
 		p.w("%s%s\n", ind, p.inst(b.Term))
+	}
+	for _, u := range f.UseListOrders {
+		p.w("  uselistorder %s, { %s }\n", p.tv(u.V), idxList(u.Indices))
 	}
 	p.w("}\n")
 }
